@@ -280,3 +280,151 @@ pub fn generate(rng: &mut Rng, tier: Tier, emit: &mut dyn FnMut(String)) {
         emit(random_case(rng, len, true));
     }
 }
+
+// ---------------------------------------------------------------------------------------------
+// estab: re-establishment of the control connection over several candidates
+// ---------------------------------------------------------------------------------------------
+
+/// `estab <o0><o1><o2> <rej> <f>`: three mock nodes, all known peers after the initial fetch (host filter: reject
+/// datacenter "dcX", which nobody is in at first). Then node `<rej>` (or `-`) is moved into "dcX" - so it is rejected
+/// in the metadata it returns itself -, a refresh request is made and the control connection is broken. The real
+/// `ControlConnectionEstablisher` now walks the (shuffled) known peers and, if none yields metadata, the contact point
+/// (node 0 again); per node the script says `x` stopped (connection refused), `e` the fetch fails, `o` it succeeds;
+/// `<f>` is the outcome of node 0's fetch when it is tried as contact point.
+/// Output: `order=<nodes whose fetch was seen, in order> took=<kind>/<replies>|- ok= err= drop=`.
+/// ORACLE (model-independent): if the fetch of ANY candidate tried succeeded, the metadata reaches the slot and the
+/// pending request is answered Ok - never Err; it is answered Err iff no candidate yielded metadata; none is dropped.
+pub fn run_estab(script: &str, rej: &str, fallback: &str, ctx: &mut Ctx) -> String {
+    let outcomes: Vec<char> = script.chars().collect();
+    if outcomes.len() != 3 || outcomes.iter().any(|c| !"oex".contains(*c)) || !(fallback == "o" || fallback == "e") {
+        return "bad-case".into();
+    }
+    let rej: Option<usize> = match rej {
+        "-" => None,
+        r => match r.parse::<usize>() {
+            Ok(k) if k < 3 => Some(k),
+            _ => return "bad-case".into(),
+        },
+    };
+    let Some(p) = Params::parse(&["n=3"]) else { return "bad-case".into() };
+    let Some(shape) = Shape::parse(&p) else { return "bad-case".into() };
+    let rt = runtime(2);
+    rt.block_on(async {
+        let cluster = MockCluster::start(shape.topology(), with_std_prepare(|_| vec![act_void()])).await;
+        let mut rig = match ProducerRig::spawn_filtered(cluster.addr(0), Duration::from_secs(600), Duration::from_secs(600), Some("dcX".to_owned())).await {
+            Ok(r) => r,
+            Err(_) => return "e2e-skip producer-spawn-failed".to_owned(),
+        };
+        cluster.set_meta_gate(true);
+        cluster.set_meta_fail_reset(true);
+        if let Some(k) = rej {
+            cluster.set_node_dc(k, "dcX");
+        }
+        let Ok(id) = rig.request() else { return "request-failed".to_owned() };
+        // the fetch for the request is held on the control connection (node 0): break that connection
+        let t0 = Instant::now();
+        while cluster.meta_held() == 0 {
+            if t0.elapsed() > WAIT {
+                ctx.fail("no fetch was started for the refresh request within 10 s");
+                return "nofetch".to_owned();
+            }
+            tokio::time::sleep(Duration::from_micros(200)).await;
+        }
+        // stop the refusing nodes first (node 0 last: stopping it breaks the control connection, which starts the
+        // establishment at once), then break the control connection
+        for k in [2usize, 1, 0] {
+            if outcomes[k] == 'x' {
+                cluster.stop_node(k).await;
+            }
+        }
+        if outcomes[0] != 'x' {
+            cluster.release_meta(false);
+        } else {
+            // the held fetch died with node 0's connections: wait until the gate has noticed
+            let t0 = Instant::now();
+            while cluster.meta_held_node() == Some(0) && t0.elapsed() < WAIT {
+                tokio::time::sleep(Duration::from_micros(200)).await;
+            }
+        }
+        // walk the establishment: decide every fetch that shows up at the gate
+        let mut order: Vec<usize> = Vec::new();
+        let mut any_ok = false;
+        let mut took = "-".to_string();
+        let (mut ok, mut err, mut dropped): (Vec<u64>, Vec<u64>, Vec<u64>) = (vec![], vec![], vec![]);
+        let t0 = Instant::now();
+        let mut first_released = outcomes[0] == 'x';
+        loop {
+            if let Some(u) = rig.take() {
+                took = format!("{}/{}", u.kind, u.replies);
+            }
+            let (o, e, d) = rig.poll_refresh();
+            ok.extend(o);
+            err.extend(e);
+            dropped.extend(d);
+            if !ok.is_empty() || !err.is_empty() || !dropped.is_empty() {
+                break;
+            }
+            if t0.elapsed() > WAIT {
+                ctx.fail(format!("the refresh request was neither answered nor dropped within 10 s (candidates tried: {:?})", order));
+                break;
+            }
+            if !cluster.meta_verdict_pending() {
+                if !first_released {
+                    // the verdict that broke the control connection has been consumed
+                    first_released = true;
+                } else if let Some(node) = cluster.meta_held_node() {
+                    let as_contact_point = order.contains(&node);
+                    order.push(node);
+                    let good = if as_contact_point { fallback == "o" } else { outcomes[node] == 'o' };
+                    any_ok |= good;
+                    cluster.release_meta(good);
+                }
+            }
+            tokio::time::sleep(Duration::from_micros(200)).await;
+        }
+        // ------------------------------------------------------------------ oracle
+        if !dropped.is_empty() {
+            ctx.fail(format!("refresh request {:?} dropped unanswered while both workers are alive", dropped));
+        }
+        if any_ok {
+            if ok != vec![id] || !err.is_empty() {
+                ctx.fail(format!(
+                    "the metadata fetch succeeded on a candidate (tried in order {:?}, script {}, rejected node {:?}) but the request was answered Ok {:?} / Err {:?}: fetched metadata was thrown away",
+                    order, script, rej, ok, err
+                ));
+            }
+        } else if err != vec![id] || !ok.is_empty() {
+            ctx.fail(format!("no candidate yielded metadata (order {:?}) but the request was answered Ok {:?} / Err {:?}", order, ok, err));
+        }
+        format!(
+            "order={} took={} ok={} err={} drop={}",
+            if order.is_empty() { "-".to_string() } else { order.iter().map(|n| n.to_string()).collect::<Vec<_>>().join(",") },
+            took,
+            ids(&ok),
+            ids(&err),
+            ids(&dropped)
+        )
+    })
+}
+
+pub fn generate_estab(tier: Tier, emit: &mut dyn FnMut(String)) {
+    // the candidate order is a random shuffle inside the driver: every script is run several times
+    let reps = if tier == Tier::Quick { 2 } else { 8 };
+    for _ in 0..reps {
+        for a in ['o', 'e', 'x'] {
+            for b in ['o', 'e', 'x'] {
+                for c in ['o', 'e', 'x'] {
+                    for rej in ["-", "0", "1", "2"] {
+                        for f in ["o", "e"] {
+                            // with node 0 stopped the contact point is refused whatever `f` says: one variant is enough
+                            if a == 'x' && f == "e" {
+                                continue;
+                            }
+                            emit(format!("estab {}{}{} {} {}", a, b, c, rej, f));
+                        }
+                    }
+                }
+            }
+        }
+    }
+}
